@@ -3,7 +3,7 @@
   `Inv` (Lemmas/SchedInv) states, among others: for every state x, `counts x` = number of
   non-phony builds in state x; `pending` = number of builds in Want/Ready/Queued/Running.
 -/
-import N2V.Lemmas.SchedWant
+import N2V.Lemmas.SchedBuild
 namespace N2V.C19
 open N2V N2V.Sched
 
@@ -23,7 +23,7 @@ theorem counts_step {g : Graph} {par : Nat} {s s' : S} {bid : Nat} {new : St}
     (hnew : new ≠ .unknown) (hprev : s.st bid ≠ .done ∧ s.st bid ≠ .failed) :
     (∀ x, x ≠ .unknown → s'.counts.get x = cnt g.nBuilds (fun b => s'.st b == x && !(g.build b).phony)) ∧
     s'.pending = cnt g.nBuilds (fun b => active (s'.st b)) :=
-  let r := set_generic inv h hid hnew hprev
+  let r := set_generic inv.toInvCore h hid hnew hprev
   ⟨r.2.2.2.1, r.2.2.2.2⟩
 
 /-- Hence the `isize`/`usize` casts of `StateCounts::add` never wrap: every count lies in
@@ -46,5 +46,37 @@ theorem want_keeps_finished (g : Graph) (s s' : S) (f : Nat) (h : want g s f = .
     s'.tasksRun = s.tasksRun ∧ ∀ b, (s'.st b = .done ↔ s.st b = .done) :=
   let e := want_lateEq' g s s' f h
   ⟨e.2.2.2, fun b => e.1 b .done (Or.inr (Or.inr (Or.inl rfl)))⟩
+
+/-- **Whole invocation.**  For every graph (producers being builds of the graph), every
+    argument vector and every behaviour of the environment (dirty answers, promotion orders,
+    finish order and outcomes), whenever `run::build` reports success or stops to re-read a
+    regenerated manifest, every UI count is exact and in `[0, #builds]`, `pending` is exact, and
+    the runner's count equals the number of Running builds.  (The want phase with its re-entrant
+    second visits, and every iteration of `Work::run`, preserve the whole invariant:
+    `want_inv_all`, `runLoop_inv`.) -/
+theorem counts_whole_build {E : Type} {g : Graph} (gok : GraphOK g) (a : Run.Args) (c : Choices E) (e : E)
+    (n : Nat) (h : (Run.build g a c e).2.2 = .done n ∨ (Run.build g a c e).2.2 = .reload n) :
+    let s := (Run.build g a c e).1
+    (∀ x, x ≠ .unknown → s.counts.get x = cnt g.nBuilds (fun b => s.st b == x && !(g.build b).phony)) ∧
+    s.pending = cnt g.nBuilds (fun b => active (s.st b)) ∧
+    s.running = cnt g.nBuilds (fun b => s.st b == .running) :=
+  let inv := Run.build_inv gok a c e n h
+  ⟨inv.counts, inv.pending, inv.running⟩
+
+/-- The same after a reload (fresh `Work` on the new graph). -/
+theorem counts_whole_build_reloaded {E : Type} {g : Graph} (gok : GraphOK g) (a : Run.Args) (c : Choices E)
+    (e : E) (n0 n : Nat) (h : (Run.buildReloaded g a c e n0).2.2 = .done n) :
+    let s := (Run.buildReloaded g a c e n0).1
+    (∀ x, x ≠ .unknown → s.counts.get x = cnt g.nBuilds (fun b => s.st b == x && !(g.build b).phony)) ∧
+    s.pending = cnt g.nBuilds (fun b => active (s.st b)) :=
+  let inv := Run.buildReloaded_inv gok a c e n0 n h
+  ⟨inv.counts, inv.pending⟩
+
+/-- Every iteration of `Work::run` starts in a state satisfying the invariant and, when the loop
+    reports success, ends in one. -/
+theorem counts_every_iteration {E : Type} {g : Graph} {par : Nat} (c : Choices E) (fuel : Nat) (s : S) (e : E)
+    (perms : List (List Nat)) (fin : List (Nat × Term)) (inv : Inv g par s)
+    (h : (runLoop g par c fuel s e perms fin).result = .ok true) :
+    Inv g par (runLoop g par c fuel s e perms fin).s := runLoop_inv c fuel s e perms fin inv h
 
 end N2V.C19
